@@ -908,7 +908,7 @@ func runC05(p *core.Program, r *core.Report) {
 	// … that function is called afresh for every gap and chosen by `SeparatorFunc == nil` alone (= C04 R4.3 re-run)
 	r.Borrow("R5.1b", func() { checkSeparatorPerGap(p, r, g, "R4.3") })
 	// … and the pre-baked empty separator function really returns the empty string (= C16 R16.3, SFNone)
-	borrowSelected(p, r, runC16, "R5.1b", func(o core.Obligation) bool { return o.Rule == "R16.3" && strings.Contains(o.Construct, "SFNone") })
+	borrowSelected(p, r, runC16, "R5.1b", func(o core.Obligation) bool { return o.Rule == "R16.3" && strings.Contains(o.Construct, "SFNone") || o.Rule == "R16.6" && mentionsVar(o.Construct, "SFNone") })
 	// R5.1b
 	if len(seps) > 1 {
 		r.Fail("R5.1b", name, "at most one separator append per iteration", p.InstrPos(c.Phi), fmt.Sprintf("%d separator appends", len(seps)))
